@@ -72,7 +72,11 @@ def check_qf(q, timeout_ms):
     ground = [a for a in A if not z3.is_quantifier(a)]
     quants = [a for a in A if z3.is_quantifier(a)]
     neg = skolemize_neg_goal(q.goal)
-    insts = [z3.simplify(fold(i_)) for i_ in inst.instantiate(quants, ground + neg)]
+    ground = [z3.simplify(g_) for g_ in ground]
+    neg = [z3.simplify(g_) for g_ in neg]
+    # (instances are folded but not re-simplified: the solver's own preprocessing normalises all assertions alike,
+    # whereas simplifying them one by one may hoist if-then-else terms differently in different assertions)
+    insts = [fold(i_) for i_ in inst.instantiate(quants, ground + neg)]
     # value table of 2**j as (unfolded) ground facts: an exponent that the arithmetic pins to a numeral then gets its
     # value by congruence
     p2 = None
@@ -331,7 +335,7 @@ def solve_split(q, hints, timeout_ms, use_cvc5, budget):
             budget[0] -= 1
             if budget[0] < 0:
                 return dict(status='unknown', backend='z3', reason='case-split budget exhausted')
-            r = solve_any(Q(A2, G2), hints2, timeout_ms, use_cvc5, budget)
+            r = solve_any(Q(A2, G2), hints2, timeout_ms, use_cvc5, budget, top=False)
             nq += r.get('queries', 1)
             if r['status'] != 'proved':
                 r['case'] = f'{t}={v} ' + r.get('case', '')
@@ -340,12 +344,19 @@ def solve_split(q, hints, timeout_ms, use_cvc5, budget):
     return None
 
 
-def solve_any(q, hints, timeout_ms, use_cvc5, budget):
+def solve_any(q, hints, timeout_ms, use_cvc5, budget, top=True):
     quick = min(timeout_ms, 1500)
     r = solve_conj(q, quick, False, full=False)
     if r['status'] != 'unknown':
         r.setdefault('queries', 1)
         return r
+    if top:
+        # a second, longer attempt on the unsplit query before resorting to case splits (whose leaves are
+        # instantiated separately and may therefore be weaker)
+        r = solve_conj(q, min(timeout_ms, 8000), False, full=False)
+        if r['status'] == 'proved':
+            r.setdefault('queries', 1)
+            return r
     r2 = solve_split(q, hints, timeout_ms, use_cvc5, budget)
     if r2 is not None:
         return r2
